@@ -237,7 +237,65 @@ def _threshold(job, scratch):
                     res["samples"].append(case)
         for fn in os.listdir(wdir):
             os.remove(os.path.join(wdir, fn))
+    _bounded_minus(res, rng, scratch, wdir)
     return res
+
+
+def _bounded_minus(res, rng, scratch, wdir):
+    """shoot() in a [0-]-type ensemble (start condition R only) whose left
+    interface is finite: scripted trials leave through either side on either
+    leg; whatever shoot() accepts must be a member (start R, end R, interior
+    inside, middle interface crossed is the code's own extra demand and not
+    judged here)."""
+    import numpy as np
+    from infretis.classes.path import load_path
+    from infretis.core.tis import shoot
+    from vf.monitors import membership
+    from vf.plugins.lattice import ScriptedEngine, SiteOrder
+    from vf.rig_sched import write_lat_path
+    pdir = os.path.join(scratch, "oldminus")
+    sites = [1, 0, -1, -2, -1, 0, 1]
+    write_lat_path(pdir, sites)
+    for idx in range(1, len(sites) - 1):
+        for be in ("R", "L"):
+            for fe in ("R", "L"):
+                b, f = rng.randint(2, 6), rng.randint(2, 6)
+                path = load_path(pdir)
+                path.generated = ("sh", 0.0, 0, 0)
+                path.maxlen = 1000
+                path.path_number = 7
+                eng = ScriptedEngine(back=b, forw=f, forw_end=fe, back_end=be)
+                eng.order_function = SiteOrder()
+                eng.exe_dir = wdir
+                eng.rgen = np.random.default_rng(0)
+                rg = _Rgen(idx, 1e-6)
+                ens = {"interfaces": (-2.5, -1.0, 0.5), "rgen": rg,
+                       "ens_name": "000", "start_cond": ("R",),
+                       "mc_move": "sh",
+                       "tis_set": {"maxlength": 100,
+                                   "allowmaxlength": False}}
+                acc, trial, status = shoot(ens, path, eng, start_cond=("R",))
+                res["n"] += 1
+                res["reached"]["bounded_minus"] = \
+                    res["reached"].get("bounded_minus", 0) + 1
+                key = f"bm_{be}{fe}_{'acc' if acc else status}"
+                res["events"][key] = res["events"].get(key, 0) + 1
+                case = {"family": "bounded-minus", "site": sites[idx],
+                        "back": b, "forw": f, "back_end": be, "forw_end": fe,
+                        "status": status, "accepted": bool(acc),
+                        "orders": [float(pp.order[0])
+                                   for pp in trial.phasepoints]}
+                if bool(acc) != (status == "ACC"):
+                    res["violations"].append(dict(
+                        case, mech="accept-flag-status-mismatch",
+                        what=f"accept={acc} status={status}"))
+                if acc:
+                    for mech, text in membership(trial, ens, -1, lattice=False):
+                        res["violations"].append(dict(
+                            case, mech=mech, what="bounded [0-]: " + text))
+                res["sigs"].append(f"bm-{sites[idx]}-{be}{fe}-{status}")
+                for fn in os.listdir(wdir):
+                    os.remove(os.path.join(wdir, fn))
 
 
 def work(job, scratch):
